@@ -1,9 +1,10 @@
 /// The 16 hex characters
 pub static HEX_CHARS: &[u8; 16] = b"0123456789abcdef";
 
-/// Map hex char to u8 value. Returns 255 if not a hex char
+/// Map hex char to u8 value. Returns 255 if not a hex char (covers all 256 byte values,
+/// so that indexing with any input byte is in bounds)
 #[allow(clippy::zero_prefixed_literal)]
-pub static HEX_INVERSE: [u8; 128] = {
+pub static HEX_INVERSE: [u8; 256] = {
     const __: u8 = 255;
     [
         //   1   2   3   4   5   6   7   8   9   A   B   C   D   E   F
@@ -15,6 +16,14 @@ pub static HEX_INVERSE: [u8; 128] = {
         __, __, __, __, __, __, __, __, __, __, __, __, __, __, __, __, // 5
         __, 10, 11, 12, 13, 14, 15, __, __, __, __, __, __, __, __, __, // 6
         __, __, __, __, __, __, __, __, __, __, __, __, __, __, __, __, // 7
+        __, __, __, __, __, __, __, __, __, __, __, __, __, __, __, __, // 8
+        __, __, __, __, __, __, __, __, __, __, __, __, __, __, __, __, // 9
+        __, __, __, __, __, __, __, __, __, __, __, __, __, __, __, __, // A
+        __, __, __, __, __, __, __, __, __, __, __, __, __, __, __, __, // B
+        __, __, __, __, __, __, __, __, __, __, __, __, __, __, __, __, // C
+        __, __, __, __, __, __, __, __, __, __, __, __, __, __, __, __, // D
+        __, __, __, __, __, __, __, __, __, __, __, __, __, __, __, __, // E
+        __, __, __, __, __, __, __, __, __, __, __, __, __, __, __, __, // F
     ]
 };
 
